@@ -214,8 +214,7 @@ fn main() {
     }
   }
 
-  let mut meta = String::from("{\n \"modules\": [\n");
-  let mut first_mod = true;
+  let mut results: Vec<(usize, Vec<ItemOut>, Option<String>)> = vec![];
   for (i, file, perr) in &parsed {
     let ms = &MODULES[*i];
     let mut items: Vec<ItemOut> = vec![];
@@ -290,13 +289,55 @@ fn main() {
       module_error = Some(perr.clone());
     }
 
+    results.push((*i, items, module_error));
+  }
+
+  // fail closed per item: an item that could not be translated is left out, and so is (transitively)
+  // every translated item that calls one, in this or in another module; the rest of the module is
+  // emitted, so that only the theorems about the missing functions stop compiling
+  loop {
+    let mut missing: HashSet<(String, String)> = HashSet::new();
+    for (i, items, _) in &results {
+      for it in items {
+        if it.status != "translated" && !it.status.starts_with("skipped") {
+          missing.insert((MODULES[*i].name.to_string(), it.name.clone()));
+        }
+      }
+    }
+    let mut changed = false;
+    for (i, items, _) in results.iter_mut() {
+      let mname = MODULES[*i].name.to_string();
+      for it in items.iter_mut() {
+        if it.status != "translated" { continue; }
+        let bad = it.callees.iter().find(|c| match c.split_once("::") {
+          Some((m, n)) => missing.contains(&(m.to_string(), n.to_string())),
+          None => missing.contains(&(mname.clone(), (*c).clone())),
+        }).cloned();
+        if let Some(b) = bad {
+          it.status = format!("failed: calls {} which is not translated", b);
+          it.code = String::new();
+          changed = true;
+        }
+      }
+    }
+    if !changed { break; }
+  }
+
+  let mut meta = String::from("{\n \"modules\": [\n");
+  let mut first_mod = true;
+  for (i, items, module_error) in &results {
+    let ms = &MODULES[*i];
     // write module
-    let status = match &module_error {
-      None => "translated".to_string(),
-      Some(e) => format!("failed: {}", e),
+    let nfailed = items.iter().filter(|it| it.status.starts_with("failed")).count();
+    let unparsed = items.is_empty() && module_error.is_some();
+    let status = match (module_error, nfailed) {
+      (None, 0) => "translated".to_string(),
+      (Some(e), _) if unparsed => format!("failed: {}", e),
+      (Some(e), n) => format!("partial: {} item(s) not translated; first: {}", n, e),
+      (None, n) => format!("partial: {} item(s) not translated", n),
     };
-    if module_error.is_none() {
-      let code = emit_module(ms, &items);
+    if !unparsed {
+      let code = emit_module(ms, items);
       std::fs::write(out.join(format!("{}.v", ms.name)), code).unwrap();
     } else {
       let _ = std::fs::remove_file(out.join(format!("{}.v", ms.name)));
